@@ -123,3 +123,31 @@ Definition check_dcase (c : dcase) : list nat :=
   let all := {| classes := []; ifaces := ds |} in
   let o := forallb (fun e => iface_ends (iface_fuel all) all (fst e)) ds in
   (if Bool.eqb m accepted then [] else [1%nat]) ++ (if Bool.eqb o accepted then [] else [2%nat]).
+
+(* ---- call chains: table, static entry?, class, entry method, hops, and the trace the implementation printed
+   (the class whose definition ran at the entry and at every hop; None = the script threw).
+   1 = model vs implementation (tie), 2 = spec vs implementation (property), 3 = the generated chain is outside the
+   theorem's hypotheses (generator fault) *)
+Definition hcase := (table * bool * string * string * list hop * option (list string))%type.
+Fixpoint names_eqb (a b : list string) : bool :=
+  match a, b with
+  | [], [] => true
+  | x :: a', y :: b' => String.eqb x y && names_eqb a' b'
+  | _, _ => false
+  end.
+Definition trace_eqb (a b : option (list string)) : bool :=
+  match a, b with
+  | None, None => true
+  | Some x, Some y => names_eqb x y
+  | _, _ => false
+  end.
+Definition check_hcase (c : hcase) : list nat :=
+  let '(t, se, r, f, hs, seen) := c in
+  if negb (wf t) then [99%nat] else
+  let ok := match resolve t r f with
+            | Some d => hops_ok t (negb se) {| s_run := r; s_lexc := d |} hs && (negb se || static_name t f)
+            | None => true end in
+  let m := match run_hops t se r f hs with Ok x => x | _ => None end in   (* Throw = the script throws *)
+  (if trace_eqb m seen then [] else [1%nat]) ++
+  (if trace_eqb (spec_run_hops t r f hs) seen then [] else [2%nat]) ++
+  (if ok then [] else [3%nat]).
